@@ -1922,6 +1922,12 @@ class Scheduler:
             )
             if check_valid == CacheCheckValid.FULL:
                 job.calc_subtree_tasks()
+                # A CSE hit replays the final result without evaluating any child job, so the
+                # tasks beneath it are only known to the backend.
+                known_hashes = {task.hash for task in job.subtree_tasks}
+                job.subtree_tasks.update(
+                    task for task in self._get_subtree_tasks(job) if task.hash not in known_hashes
+                )
             else:
                 # If we did ultimate reduction caching, then we need to query the
                 # backend to determine subtree tasks.
